@@ -379,9 +379,10 @@ func runAll(jobsPath, outPath string, n int, memKB int64, sec int, deferStalls b
 			keyHung[key] = compactStack(last, 8000)
 		}
 	}
-	// A process death in a worker that has already served other calls can be an artefact of that history (address
-	// space used up by an earlier call that legitimately needed gigabytes): the fault counts as observed on a
-	// solitary re-run in a fresh worker, which is the deterministic setting of DESIGN section 3.
+	// A process death (or a recovered panic) in a worker that has already served other calls can be an artefact of
+	// that history (address space used up by an earlier call that legitimately needed gigabytes, package-level state):
+	// the fault counts as observed on a solitary re-run in a fresh worker, which is the deterministic setting of
+	// DESIGN section 3, and that re-run is the confirmation G1 asks for.
 	reconfirmFatal := func(id int) {
 		defer wg.Done()
 		sem <- struct{}{}
@@ -427,7 +428,7 @@ func runAll(jobsPath, outPath string, n int, memKB int64, sec int, deferStalls b
 			}
 			wg.Add(1)
 			go confirm(r.ID)
-		} else if strings.HasPrefix(oc, "fatal") {
+		} else if strings.HasPrefix(oc, "fatal") || oc == "panic" {
 			wg.Add(1)
 			go reconfirmFatal(r.ID)
 		}
